@@ -1033,6 +1033,13 @@ def run(ctx):
     ctx.cov["cases_per_expected_outcome"] = per_exp
     ctx.cov["cases_per_kb_class"] = per_kb
     ctx.cov["cases_per_encoding_kind"] = per_kind
+    per_kbrep = {}
+    for s in done:
+        for _rep, k, oc in s["kbrep"]:
+            per_kbrep[f"{k}:{oc}"] = per_kbrep.get(f"{k}:{oc}", 0) + 1
+    ctx.cov["cases_per_representation_dependent_kb_class"] = per_kbrep
+    if not any(k.startswith("DeltaUint64Promoted:") for k in per_kbrep):
+        raise Vacuity(f"the representation-dependent recorded class is not enumerated: {per_kbrep}")
     if set(per_exp) != {"ok", "Rejected"} or not {"FixedPointUnchecked", "IntervalUnchecked"} <= set(per_kb):
         raise Vacuity(f"outcomes / recorded classes not all enumerated: {per_exp} {per_kb}")
     if not {"BA", "FP", "IQ", "RL", "DE", "IP", "SA"} <= set(per_kind):
